@@ -138,8 +138,8 @@ PROPS["C18"] = dict(
         Job("shard_expiry", engine="shard_expiry", workers=(4, 4), cases=(100, 10000), time_s=(40, 700), **PURE),
     ],
     gates=dict(evaluations=(500, 20000), distinct=(40, 80),
-               counters={"keyed_exports": (300, 10000), "keyed_answers_identical": (10000, 500000), "zero_key_exports": (20, 500), "expired_shards_checked": (300, 10000), "valid_shards_checked": (300, 10000), "shards_deleted_by_clean": (100, 5000),
-                         "flags_000": (10, 100), "flags_111": (10, 100)}),
+               counters={"keyed_exports": (200, 8000), "keyed_answers_identical": (8000, 400000), "zero_key_exports": (20, 500), "expired_shards_checked": (300, 10000), "valid_shards_checked": (300, 10000), "shards_deleted_by_clean": (100, 5000),
+                         "flags_000": (8, 100), "flags_111": (8, 100), "keyed_mixture_directories": (60, 2000), "keyed_mixture_hits_identical": (2000, 100000)}),
 )
 
 # ---------------------------------------------------------------------------------------------
